@@ -54,7 +54,7 @@ func init() {
 		},
 		Cases: func(tier string, seed uint64) int {
 			if tier == "thorough" {
-				return 2400000
+				return 12000000
 			}
 			return 40000
 		},
